@@ -6,13 +6,14 @@ from __future__ import annotations
 import ast
 
 from ..absval import Interp, Obj, Sym, Unknown, enumerate_paths
-from ..model import AnchorMissing, Func, Undecided, dotted, norm, walk_no_nested
+from ..model import AnchorMissing, Func, Undecided, bind_args, dotted, norm, walk_no_nested
 from ..report import Ctx
 from ..variants import Variant
+from .common import calls_resolving_to
 from .resultrun import ResultInterp, Tagged
 
 INFO = {
-    "explanation": "The ASSD call chain is interpreted over morphological terms (masks, structuring elements, erosions, borders, distance transforms): (R07.1) _average_symmetric_surface_distance is the arithmetic mean of exactly two directed terms, one per orientation; (R07.2) a border is mask XOR scipy.ndimage.binary_erosion(mask, structure=generate_binary_structure(mask.ndim, 1), iterations=1) with border_value absent/0 - outside the array counts as background - on the mask itself (only astype(bool)/atleast_1d before; no squeeze/reshape, no wrap-around shifts); (R07.3) each directed term is the mean of the distance transform of the complement of the REFERENCE border read at the PREDICTION border; (R07.4) _distance_transform_edt returns sqrt(sum over axis 0 of (feature index - own index)^2) with the squares taken in float64; (R07.5) the default connectivity reaching the structuring element is 1 along the whole wrapper chain. Per-instance crop before the metric call: one crop from both masks (R02.5) and a bounding box that never cuts foreground (R10.2), delegated. Also delegated: R10.3 (the per-instance crop covers both masks). Further delegated: R15.7 (no state kept between calls).",
+    "explanation": "R07.6 (round 4): the feature transform that picks the nearest border voxel runs under the same (index) metric as the reconstructed distance - no sampling is handed to it. The ASSD call chain is interpreted over morphological terms (masks, structuring elements, erosions, borders, distance transforms): (R07.1) _average_symmetric_surface_distance is the arithmetic mean of exactly two directed terms, one per orientation; (R07.2) a border is mask XOR scipy.ndimage.binary_erosion(mask, structure=generate_binary_structure(mask.ndim, 1), iterations=1) with border_value absent/0 - outside the array counts as background - on the mask itself (only astype(bool)/atleast_1d before; no squeeze/reshape, no wrap-around shifts); (R07.3) each directed term is the mean of the distance transform of the complement of the REFERENCE border read at the PREDICTION border; (R07.4) _distance_transform_edt returns sqrt(sum over axis 0 of (feature index - own index)^2) with the squares taken in float64; (R07.5) the default connectivity reaching the structuring element is 1 along the whole wrapper chain. Per-instance crop before the metric call: one crop from both masks (R02.5) and a bounding box that never cuts foreground (R10.2), delegated. Also delegated: R10.3 (the per-instance crop covers both masks). Further delegated: R15.7 (no state kept between calls).",
     "trusted_base": ["scipy.ndimage.binary_erosion, generate_binary_structure, euclidean_feature_transform", "numpy elementwise arithmetic"],
     "assumptions": ["masks are non-empty (property precondition)"],
     "not_decided": ["the Euclidean feature transform itself", "floating-point rounding"],
@@ -406,6 +407,41 @@ def check_edt(ctx: Ctx):
     ctx.decide("R07.4", f, bad[0][0] if bad else out.node, construct + ":float-squares", "index offsets are squared in float64 (int32 squares overflow for offsets >= 46341 voxels)", not bad, {"squared_in": [d for _, d in bad]})
 
 
+def check_metric_consistency(ctx: Ctx):
+    """R07.6: the voxel that counts as *nearest* is chosen under the same metric as the distance that
+    is averaged.  _distance_transform_edt reconstructs the distance in index units (R07.4: no scaling
+    by the sampling), so the feature transform must run without sampling as well: every call of
+    _distance_transform_edt on the ASSD path passes sampling=None (or nothing), unless the distance
+    reconstruction scales each axis by the same sampling."""
+    prog = ctx.prog
+    edt = prog.func("metrics.assd:_distance_transform_edt")
+    sp = next((p.name for p in edt.call_params if "sampl" in p.name.lower() or "spacing" in p.name.lower()), None)
+    if sp is None:
+        ctx.ok("R07.6", edt, edt.node, f"{edt.qual}:no-sampling", "the distance transform has no sampling parameter", None, nontrivial=False)
+        return
+    # does the reconstruction use the sampling?  (a Name load of the parameter outside the feature-transform call)
+    ft_calls = [c for c in prog.calls_in(edt) if (dotted(c.func) or "").split(".")[-1] == "euclidean_feature_transform"]
+    inside = {id(n) for c in ft_calls for n in ast.walk(c)}
+    scaled = [n for n in walk_no_nested(edt.node) if isinstance(n, ast.Name) and n.id == sp and isinstance(n.ctx, ast.Load) and id(n) not in inside]
+    passes = [c for c in ft_calls if any(isinstance(n, ast.Name) and n.id == sp for n in ast.walk(c))]
+    n = 0
+    m = prog.module("metrics.assd")
+    for f in m.functions.values():
+        for c in calls_resolving_to(prog, f, edt):
+            n += 1
+            b, _ = bind_args(edt, c)
+            a = b.get(sp)
+            none = a is None or (isinstance(a, ast.Constant) and a.value is None)
+            if none or not passes:
+                ctx.ok("R07.6", f, c, f"{f.qual}->{edt.name}:sampling", "nearest voxel and averaged distance use the same (index) metric: no sampling is handed to the feature transform")
+            elif scaled:
+                ctx.undecided("R07.6", f, c, f"{f.qual}->{edt.name}:sampling", "a sampling is handed to the feature transform and the reconstruction mentions it: whether both use the same metric is not decided", {"sampling": norm(a)})
+            else:
+                ctx.violated("R07.6", f, c, f"{f.qual}->{edt.name}:sampling", "the nearest voxel is chosen under the sampling metric while the distance is reconstructed in index units: for non-uniform spacing the averaged distance is not the distance to the nearest border voxel", {"sampling": norm(a)})
+    if n < 1:
+        ctx.undecided("R07.6.floor", None, None, "floor:R07.6", "no call of the distance transform found in metrics.assd")
+
+
 def check_connectivity_defaults(ctx: Ctx):
     prog = ctx.prog
     m = prog.module("metrics.assd")
@@ -430,7 +466,7 @@ def check(ctx: Ctx):
     check_no_wraparound(ctx)
     from . import c02, c10
 
-    for fn, rule in ((check_chain, "R07.1"), (check_edt, "R07.4"), (check_connectivity_defaults, "R07.5"), (c10.check_bbox, "R10.2"), (c10.check_crop_mask, "R10.3"), (c02.check_single_instance, "R02.5")):
+    for fn, rule in ((check_chain, "R07.1"), (check_edt, "R07.4"), (check_connectivity_defaults, "R07.5"), (check_metric_consistency, "R07.6"), (c10.check_bbox, "R10.2"), (c10.check_crop_mask, "R10.3"), (c02.check_single_instance, "R02.5")):
         try:
             fn(ctx)
         except (Undecided, AnchorMissing) as e:
